@@ -25,14 +25,19 @@ RULE = ('case = (configuration in ticks; event list with Cancel events) run agai
         'before its result / after its result (no-op), creators and sharers alike, then two fresh calls (a new key and key0) '
         'and a drain that answers everything; retention 0 and > 0.  Random layer: up to 8 calls, several cancels per batch, '
         'any result order.  non-trivial = some waiting caller was really cancelled and another caller was answered '
-        '(Case_C09.nontrivial, inside Coq); distinct = distinct (case, trace) pairs')
+        '(Case_C09.nontrivial, inside Coq); distinct = distinct (case, trace) pairs'
+        ' The random layer also contains Chain events (a task calling again in the continuation of its answer; cancelling it stops the chain).')
 EXHAUSTIVE_NOTE = ('all event lists of length <= D (D=5 quick, 6 thorough) with <= 3 calls over the alphabet in the rule, '
                    'for 4 configurations, each followed by fresh calls and a drain')
 ASSUMPTIONS = D.ASSUMPTIONS + ['a caller is cancelled at a quiescent point, i.e. after its task has reached '
                                'await shield(fut) (a task cancelled before its first step never calls the batcher)']
 TRUSTED = D.TRUSTED
 ALLOWED_AXIOMS = []
-LEVEL_NOTE = D.LEVEL_NOTE
+LEVEL_NOTE = ('trusted: Coq kernel + vm_compute; asyncio primitives (Queue, wait_for, FIFO Semaphore, shield, Future '
+    'done-callbacks, call_later, task wake-up order) are modelled in Batcher.v and validated only by the '
+    'correspondence runs; harness/vloop.py, harness/batcher_drv.py, coq/theories/Case_Batcher.v (agree + monitors).  '
+    'Monitor soundness is proved only for the simple conjuncts (monitor_sound_partial); the other conjuncts are tied '
+    'to the theorems through agree (model trace = observed trace) on every case')
 TECHNIQUE = D.TECHNIQUE
 
 run_impl = D.run_impl
@@ -134,12 +139,15 @@ def gen_search(tier, seed):
     return out
 
 
-LEVEL_TEXT = ('On the macro-step model of the CURRENT AsyncBackgroundBatcher (callers await shield(fut), the key is released '
-              'by a done-callback of the future) props/C09.v proves for ALL event lists with arbitrary Cancel events: every '
-              'caller that completes without being cancelled carries the outcome the batch function produced for its key in '
-              'the batch that carried its item; cancelling callers changes nothing else — the run with the Cancel events '
-              'removed produces the same batches and the same answers for all other callers (non-interference); no '
-              'background task dies; waiting callers always have a pending item in some batch; after any history a fresh '
-              'call is handed to the batch function within batch_timeout once a slot is free.  Tied to /repo by differential '
-              'correspondence under the virtual-time loop with scripted cancellations; the monitor judges the observed '
-              'trace independently of the model.')
+LEVEL_TEXT = ('On the macro-step model of the CURRENT AsyncBackgroundBatcher (callers await shield(fut), the key is released by '
+    'a done-callback of the future) props/C09.v proves for ALL event lists with arbitrary Cancel events at any '
+    'position: own_outcome_under_cancel — every CallerDone is either Cancelled for a caller a Cancel event names '
+    "(cancelled_only_by_cancel) or exactly the outcome the batch function produced for that caller's key in the batch "
+    'that carried its future, including batch mates and sharers of a cancelled caller; always_answered_under_cancel '
+    'and batch_end_answers_under_cancel — waiting callers always have a pending item the batcher still holds and the '
+    'end of a batch answers all its items; no_task_died_under_cancel; keeps_serving — after any history a call with a '
+    'key that is not remembered, followed by batch_timeout ticks, is in an observed BatchStart unless all slots are '
+    "busy (then it is queued for the next free slot).  The statement 'the run without the Cancel events gives the "
+    "same answers' is NOT claimed (a cancelled task stops making its later calls).  Tied to /repo by differential "
+    'correspondence under the virtual-time loop with scripted cancellations; the monitor (ok_C04 and ok_C11) judges '
+    'the observed trace independently of the model.')
